@@ -72,11 +72,14 @@ def build_workflow(spec: dict[str, Any], wf_id: str = "W1"):
             for kind, owner in (("before", SyntheticStageOwner.STAGE_BEFORE), ("after", SyntheticStageOwner.STAGE_AFTER)):
                 prev = None
                 for i, b in enumerate(syn.get(kind) or []):
-                    ch = StageExecution.create_synthetic(type="v", name=f"{s['ref']}/{kind}{i}", parent=se, owner=owner,
-                                                         context={"_v": {"tasks": [{"b": b}]}})
+                    cscript = [{"b": "fail" if b == "failcof" else b}]
+                    cctx: dict[str, Any] = {"_v": {"tasks": cscript}}
+                    if b == "failcof":
+                        cctx["continuePipelineOnFailure"] = True
+                    ch = StageExecution.create_synthetic(type="v", name=f"{s['ref']}/{kind}{i}", parent=se, owner=owner, context=cctx)
                     ch.id = f"{sid}-{kind}{i}"
                     ch.ref_id = f"{s['ref']}/{kind}{i}"
-                    ch.tasks = make_task_models([{"b": b}], ch.id)
+                    ch.tasks = make_task_models(cscript, ch.id)
                     if prev is not None and not syn.get("parallel"):
                         ch.requisite_stage_ref_ids = {prev.ref_id}
                     prev = ch
@@ -152,8 +155,10 @@ def features(spec: dict[str, Any]) -> list[str]:
             f.add("after-child")
         if syn.get("onfail"):
             f.add("onfail-child")
-        if any(b == "fail" for k in ("before", "after", "onfail") for b in (syn.get(k) or [])):
+        if any(b in ("fail", "failcof") for k in ("before", "after", "onfail") for b in (syn.get(k) or [])):
             f.add("failing-child")
+        if any(b == "failcof" for k in ("before", "after", "onfail") for b in (syn.get(k) or [])):
+            f.add("continue-on-failure-child")
         if syn.get("pre"):
             f.add("predeclared-child")
         if syn.get("parallel") and max(len(syn.get(k) or []) for k in ("before", "after", "onfail")) > 1:
